@@ -832,6 +832,7 @@ func (l *directedMultiplexLocalMover) deltaQ(n graph.Node) (deltaQ float64, dst 
 		c := l.communities[i]
 		var removal bool
 		var _dQadd float64
+		first := -1
 		for layer := 0; layer < l.g.Depth(); layer++ {
 			m := l.m[layer]
 			if m == 0 {
@@ -846,14 +847,18 @@ func (l *directedMultiplexLocalMover) deltaQ(n graph.Node) (deltaQ float64, dst 
 				// Do not consider layers with zero weighting.
 				continue
 			}
+			if first == -1 {
+				first = layer
+			}
 
 			var k_aC, sigma_totC directedWeights // C is a substitution for ^𝛼 or ^𝛽.
 			removal = false
 			for j, u := range c {
 				uid := u.ID()
 				if uid == id {
-					// Only mark and check src community on the first layer.
-					if layer == 0 {
+					// Only mark and check src community on the first
+					// layer that is considered.
+					if layer == first {
 						if src.community != -1 {
 							panic("community: multiple sources")
 						}
